@@ -1,0 +1,167 @@
+//! Verification hooks. Compiled only with `--cfg lace_verif`.
+//!
+//! Everything here observes: counters, copies of printed text, a step budget. The only behaviour
+//! that differs from a normal build is opt-in per thread (`arm`): when armed, exhausting the step
+//! budget or reaching a `std::process::exit` site unwinds with a typed payload instead, so that an
+//! in-process harness survives and can read the machine state afterwards.
+
+use std::cell::{Cell, RefCell};
+
+/// Payload of the unwinds raised by this module.
+#[derive(Debug, Clone, Copy, PartialEq, Eq)]
+pub enum Stop {
+    /// The step budget given to [`arm`] ran out at the top of the run loop.
+    Fuel,
+    /// The code was about to call `std::process::exit` with this status.
+    Exit(i32),
+    /// An injected key queue (line editor) ran dry.
+    KeysExhausted,
+}
+
+/// Counters collected since the last [`arm`] / [`reset_counters`].
+#[derive(Debug, Clone, Copy, Default, PartialEq, Eq)]
+pub struct Counters {
+    /// Iterations of `RunEnvironment::run`'s loop.
+    pub ticks: u64,
+    /// Calls of `RunState::execute` from the run loop.
+    pub execs: u64,
+    /// Commands handed to the debugger by its reader (including end of input).
+    pub commands: u64,
+    /// Longest run of consecutive loop iterations with neither an instruction executed nor a
+    /// command consumed.
+    pub max_idle_run: u64,
+}
+
+thread_local! {
+    static ARMED: Cell<bool> = const { Cell::new(false) };
+    static FUEL: Cell<Option<u64>> = const { Cell::new(None) };
+    static ENV_FUEL_READ: Cell<bool> = const { Cell::new(false) };
+    static COUNTERS: Cell<Counters> = const { Cell::new(Counters { ticks: 0, execs: 0, commands: 0, max_idle_run: 0 }) };
+    static IDLE_RUN: Cell<u64> = const { Cell::new(0) };
+    static PROGRESS_SINCE_TICK: Cell<bool> = const { Cell::new(true) };
+    static TEE_NORMAL: RefCell<Option<String>> = const { RefCell::new(None) };
+    static TEE_DEBUGGER: RefCell<Option<String>> = const { RefCell::new(None) };
+}
+
+/// Arm this thread: exits and fuel exhaustion unwind with a [`Stop`] payload, printed text is
+/// copied into the tee buffers, counters start from zero.
+pub fn arm(fuel: Option<u64>) {
+    ARMED.with(|a| a.set(true));
+    FUEL.with(|f| f.set(fuel));
+    reset_counters();
+    TEE_NORMAL.with(|t| *t.borrow_mut() = Some(String::new()));
+    TEE_DEBUGGER.with(|t| *t.borrow_mut() = Some(String::new()));
+}
+
+pub fn disarm() {
+    ARMED.with(|a| a.set(false));
+    FUEL.with(|f| f.set(None));
+}
+
+pub fn set_fuel(fuel: Option<u64>) {
+    FUEL.with(|f| f.set(fuel));
+}
+
+pub fn reset_counters() {
+    COUNTERS.with(|c| c.set(Counters::default()));
+    IDLE_RUN.with(|c| c.set(0));
+    PROGRESS_SINCE_TICK.with(|c| c.set(true));
+}
+
+pub fn counters() -> Counters {
+    COUNTERS.with(|c| c.get())
+}
+
+pub fn take_normal() -> String {
+    TEE_NORMAL.with(|t| t.borrow_mut().as_mut().map(std::mem::take).unwrap_or_default())
+}
+
+pub fn take_debugger() -> String {
+    TEE_DEBUGGER.with(|t| t.borrow_mut().as_mut().map(std::mem::take).unwrap_or_default())
+}
+
+/// Top of the run loop.
+pub fn tick() {
+    let mut c = COUNTERS.with(|c| c.get());
+    c.ticks += 1;
+    // An iteration counts as idle if nothing progressed since the previous tick.
+    let progressed = PROGRESS_SINCE_TICK.with(|p| p.replace(false));
+    let idle = if progressed {
+        IDLE_RUN.with(|i| i.set(0));
+        0
+    } else {
+        IDLE_RUN.with(|i| {
+            i.set(i.get() + 1);
+            i.get()
+        })
+    };
+    if idle > c.max_idle_run {
+        c.max_idle_run = idle;
+    }
+    COUNTERS.with(|cell| cell.set(c));
+
+    // Binary: budget from the environment, read once
+    if !ENV_FUEL_READ.with(|r| r.replace(true)) && !ARMED.with(|a| a.get()) {
+        if let Some(fuel) = std::env::var("LACE_VERIF_FUEL")
+            .ok()
+            .and_then(|v| v.parse::<u64>().ok())
+        {
+            FUEL.with(|f| f.set(Some(fuel)));
+        }
+    }
+
+    if let Some(fuel) = FUEL.with(|f| f.get()) {
+        if fuel == 0 {
+            if ARMED.with(|a| a.get()) {
+                std::panic::panic_any(Stop::Fuel);
+            } else {
+                eprintln!("lace_verif: step budget exhausted");
+                std::process::exit(0xF0);
+            }
+        }
+        FUEL.with(|f| f.set(Some(fuel - 1)));
+    }
+}
+
+/// Directly before the run loop executes an instruction.
+pub fn note_exec() {
+    COUNTERS.with(|c| {
+        let mut v = c.get();
+        v.execs += 1;
+        c.set(v);
+    });
+    PROGRESS_SINCE_TICK.with(|p| p.set(true));
+}
+
+/// Directly after the debugger obtained a command (or end of input) from its reader.
+pub fn note_command() {
+    COUNTERS.with(|c| {
+        let mut v = c.get();
+        v.commands += 1;
+        c.set(v);
+    });
+    PROGRESS_SINCE_TICK.with(|p| p.set(true));
+}
+
+/// Directly before every `std::process::exit(code)` in the library.
+pub fn on_exit(code: i32) {
+    if ARMED.with(|a| a.get()) {
+        std::panic::panic_any(Stop::Exit(code));
+    }
+}
+
+pub fn tee_normal(s: &str) {
+    TEE_NORMAL.with(|t| {
+        if let Some(buf) = t.borrow_mut().as_mut() {
+            buf.push_str(s);
+        }
+    });
+}
+
+pub fn tee_debugger(s: &str) {
+    TEE_DEBUGGER.with(|t| {
+        if let Some(buf) = t.borrow_mut().as_mut() {
+            buf.push_str(s);
+        }
+    });
+}
